@@ -339,6 +339,7 @@ class Src:
         self.completed = completed or (lambda: None)
         self.max_gap = 0
         self.lock = threading.Lock()
+        self.gate = None    # optional callable(i) run at the start of a pull (may block: the check's own scheduling)
 
     def __iter__(self):
         return self
@@ -352,6 +353,8 @@ class Src:
             i = self.i
             if i >= self.n:
                 raise StopIteration
+            if self.gate is not None:
+                self.gate(i)
             if self.widen:
                 time.sleep(self.widen)
             if self.fail_at is not None and i == self.fail_at:
